@@ -710,3 +710,27 @@ func CaseVariantFont(t *sim.Tape) []byte {
 	// dictionaries grow, and so do this interpreter's
 	return append(append(append([]byte{}, file[:at]...), extra...), file[at:]...)
 }
+
+// BadFontMatrixFont returns a font file that is complete except that one
+// FontMatrix entry is not a number (the reader rejects it after having
+// interpreted the whole program).
+func BadFontMatrixFont(t *sim.Tape) []byte {
+	f := GenFont(t, 3)
+	file, err := FontFile(f, FontFormats[t.Choose(len(FontFormats))])
+	if err != nil {
+		return nil
+	}
+	old := []byte("/FontMatrix [0.001 0 0 0.001 0 0] def")
+	if !bytes.Contains(file, old) {
+		old = []byte("/FontMatrix [0.0005 0 0 0.0005 0 0] def")
+	}
+	repl := []string{"/FontMatrix [0.001 0 0 (x) 0 0] def", "/FontMatrix [0.001 0 0 0.001 0 /n] def", "/FontMatrix [true 0 0 0.001 0 0] def"}[t.Choose(3)]
+	// PFB: the text segment's length field must follow the new size
+	out := bytes.Replace(file, old, []byte(repl), 1)
+	if len(file) > 6 && file[0] == 0x80 && file[1] == 1 {
+		n := int(file[2]) | int(file[3])<<8 | int(file[4])<<16 | int(file[5])<<24
+		n += len(repl) - len(old)
+		out[2], out[3], out[4], out[5] = byte(n), byte(n>>8), byte(n>>16), byte(n>>24)
+	}
+	return out
+}
